@@ -761,7 +761,7 @@ impl<'p> Evaluator<'_, 'p> {
             }
             (ast::BinaryOp::Shl, ValueData::Number(lhs), ValueData::Number(rhs)) => {
                 let lhs = self.safe_f64_to_i64(lhs, span)?;
-                if rhs.is_sign_negative() {
+                if rhs < 0.0 {
                     return Err(self.report_error(EvalErrorKind::ShiftByNegative { span }));
                 }
                 let rhs = self.safe_f64_to_i64(rhs, span)?;
@@ -774,7 +774,7 @@ impl<'p> Evaluator<'_, 'p> {
             }
             (ast::BinaryOp::Shr, ValueData::Number(lhs), ValueData::Number(rhs)) => {
                 let lhs = self.safe_f64_to_i64(lhs, span)?;
-                if rhs.is_sign_negative() {
+                if rhs < 0.0 {
                     return Err(self.report_error(EvalErrorKind::ShiftByNegative { span }));
                 }
                 let rhs = self.safe_f64_to_i64(rhs, span)?;
